@@ -92,7 +92,8 @@ class CapturePrinter:
         self.named.append((None, string))
 
     def print_to(self, name, string):
-        self.lines.append(string)
+        # a printout sent to a named stream is recorded the way the standard-out printer shows it: "[name] text"
+        self.lines.append(string if not name else f"[{name}] {string}")
         self.named.append((name, string))
 
 
